@@ -96,7 +96,7 @@ structure Sess where
   streams : List Stream := []           -- creation order
   polls   : Nat := 0
   posts   : Nat := 0                    -- hot-restart lambdas posted to the dispatcher
-  acks    : Nat := 0                    -- acks that matched the listener epoch
+  acks    : Nat := 0                    -- acks counted by the listener (it is in hot-restart state, as is this session)
   deriving DecidableEq, Repr, Inhabited
 
 def Sess.find (s : Sess) (id : Nat) : Option Stream := s.streams.find? (·.id = id)
@@ -114,7 +114,9 @@ def apply (cfg : Cfg) (s : Sess) : Effect → Sess
     if status = 1 then s1.update id halfClose
     else s1.update id (fun x => { x with pending := x.pending ++ [payload] })
   | .hotRestart _ => { s with posts := s.posts + 1 }
-  | .hotRestartAck e => if e = cfg.listenerEpoch then { s with acks := s.acks + 1 } else s
+  | .hotRestartAck e =>
+    -- (repaired code) only an ack the listener waits for counts: right epoch, and this session has not acked yet
+    if e = cfg.listenerEpoch ∧ s.acks = 0 then { s with acks := s.acks + 1 } else s
 
 /-- the loop of handleEvents on the whole window; returns the new session summary, the unconsumed rest, and whether
     the session was closed by a protocol error -/
